@@ -88,3 +88,10 @@ claim("C14", "property-based testing: translation check of exported kinetic laws
       "the model's own rate objects.  The Hill-family kinetic laws are a recorded known finding (8 signatures); the "
       "search continues behind them on mass action, general rates and stoichiometry.",
       _TB + "; libsbml's reader", "DESIGN.md section 4 C14, section 6 item 10")
+
+claim("C13", "property-based testing: libsbml-built documents, differential vs reference SBML semantics computed from the generated trees (Hypothesis)",
+      "5k / 60k generated plain SBML L3V2 documents (colliding local parameters, stoichiometries 1..3, modifiers, "
+      "amount / concentration / unset species, interleaved assignment and rate rules): initial values, parameter "
+      "values, stoichiometry, rule count, post-rule state and derivative at sampled states must equal the reference "
+      "semantics to 1e-9.  Left-nested powers in kinetic laws are a recorded known finding probed by its own labelled "
+      "class.", _TB + "; libsbml's writer and reader", "DESIGN.md section 4 C13")
